@@ -58,7 +58,7 @@ TEXT = {
              "C-string interfaces one that ends with the terminator, so one byte read or written outside is a "
              "sanitizer failure. The shells run with recording handlers, tables of 0..4 commands and lines that "
              "are empty, blank, hit, miss, prefix-of-command and longer than 10 words. A separate target runs split / trim / replace / memmem / split_cmdargs / argvc / creader on strings of 250..1100 characters. Absence of defects beyond "
-             "the explored inputs is not established. The argv splitters are also given words of arbitrary bytes 0x01..0xFF, and a quarter of the shell dispatches pass no place for the handler's return value.",
+             "the explored inputs is not established. The argv splitters are also given words of arbitrary bytes 0x01..0xFF, and a quarter of the shell dispatches pass no place for the handler's return value. join(first, last, delim, prefix, postfix) and igris_memmem over all byte values are exercised as well.",
     "note": "Trusted: the harness' reference implementations, clang ASan/UBSan, and a stack pre-fill that makes the "
             "dispatchers' read of a never-written argv[0] fault deterministically (no MemorySanitizer build). "
             "split_cmdargs is compared exactly only on inputs whose quoting the shipped tests define; creader is "
